@@ -82,18 +82,73 @@ Proof. intros z s H. rewrite <- is_finite_SF_B2SF, H. reflexivity. Qed.
 Lemma py_int_finite : forall z : b64, is_finite z = true -> py_int z = Ok (Ztrunc (B2R z)).
 Proof. intros z Hz. rewrite <- Btrunc_Ztrunc. destruct z; try discriminate; reflexivity. Qed.
 
-(* the product with an exact power of two, when finite, has the integer part of the exact product *)
-Lemma mult_pow2_trunc :
-  forall (a b : b64) (r : R) (k : Z),
-    (B2R a * B2R b = r * bpow2 k)%R -> fmt64 r ->
-    is_finite (b64_mult a b) = true ->
-    Ztrunc (B2R (b64_mult a b)) = Ztrunc (r * bpow2 k).
+Lemma b64_mult_finite_inv :
+  forall a b : b64, is_finite (b64_mult a b) = true ->
+    (Rabs (rnd64 (B2R a * B2R b)) < bpow2 1024)%R /\ is_finite a = true /\ is_finite b = true.
 Proof.
-  intros a b r k Hab Fr Hfin. unfold b64_mult in *.
+  intros a b Hfin. unfold b64_mult in Hfin.
   generalize (Bmult_correct 53 1024 prec64_gt_0 prec64_lt_emax mode_NE a b).
-  destruct (Rlt_bool _ _).
-  - intros (H1 & _). rewrite H1, Hab. apply trunc_round_scaled; assumption.
+  change (SpecFloat.fexp 53 1024) with fexp64. change (round_mode mode_NE) with ZnearestE.
+  destruct (Rlt_bool_spec (Rabs (rnd64 (B2R a * B2R b))) (bpow2 1024)) as [Hlt|Hge].
+  - intros (_ & H2 & _). rewrite Hfin in H2. symmetry in H2. apply andb_true_iff in H2. tauto.
   - intros H. apply is_finite_not_overflow in H. congruence.
+Qed.
+
+Lemma b64_mult_spec :
+  forall a b : b64, (Rabs (rnd64 (B2R a * B2R b)) < bpow2 1024)%R ->
+    B2R (b64_mult a b) = rnd64 (B2R a * B2R b) /\
+    is_finite (b64_mult a b) = is_finite a && is_finite b.
+Proof.
+  intros a b Hlt. unfold b64_mult.
+  generalize (Bmult_correct 53 1024 prec64_gt_0 prec64_lt_emax mode_NE a b).
+  change (SpecFloat.fexp 53 1024) with fexp64. change (round_mode mode_NE) with ZnearestE.
+  rewrite Rlt_bool_true by assumption. intros (H1 & H2 & _). split; assumption.
+Qed.
+
+Lemma py_pow2_val : forall k s, py_pow2 k = Ok s -> s = Bldexp mode_NE b64_one k.
+Proof. unfold py_pow2. intros k s H. destruct (1024 <=? k); congruence. Qed.
+
+(* The integer part of the code's product scale * x is the integer part of the exactly scaled value,
+   for every scale 2.0**n_frac Python can compute: for -1074 <= n_frac the scale is the exact power of
+   two (trunc_round_scaled); below, it is 0.0 or the smallest subnormal and both sides are 0
+   (|x| < 2^1024). *)
+Lemma scaled_trunc_all :
+  forall n_frac (x s : b64),
+    py_pow2 n_frac = Ok s -> is_finite (b64_mult s x) = true ->
+    Ztrunc (rnd64 (B2R s * B2R x)) = Ztrunc (B2R x * bpow2 n_frac).
+Proof.
+  intros n_frac x s Hs Hfin.
+  assert (Hub : n_frac <= 1023).
+  { unfold py_pow2 in Hs. destruct (1024 <=? n_frac) eqn:E; [discriminate|]. apply Z.leb_gt in E. lia. }
+  destruct (Z_lt_le_dec n_frac (-1074)) as [Hf|Hf].
+  - assert (Hxb : (Rabs (B2R x) < bpow2 1024)%R) by apply (abs_B2R_lt_emax 53 1024).
+    assert (Hsb : (Rabs (B2R s) <= bpow2 (-1074))%R).
+    { rewrite (py_pow2_val _ _ Hs).
+      generalize (Bldexp_correct 53 1024 prec64_gt_0 prec64_lt_emax mode_NE b64_one n_frac).
+      unfold b64_one. rewrite Bone_correct, Rmult_1_l.
+      change (SpecFloat.fexp 53 1024) with fexp64. change (round_mode mode_NE) with ZnearestE.
+      assert (Hr : (Rabs (rnd64 (bpow2 n_frac)) <= bpow2 (-1074))%R).
+      { apply abs_round_le_generic; auto with typeclass_instances.
+        - apply generic_format_FLT_bpow; [reflexivity|lia].
+        - rewrite Rabs_pos_eq by apply bpow_ge_0. apply bpow_le. lia. }
+      rewrite Rlt_bool_true.
+      - intros (H1 & _). rewrite H1. exact Hr.
+      - apply Rle_lt_trans with (1 := Hr). apply bpow_lt. lia. }
+    assert (Hprod : (Rabs (B2R s * B2R x) <= bpow2 (-50))%R).
+    { rewrite Rabs_mult. replace (-50) with (-1074 + 1024) by lia. rewrite bpow_plus.
+      apply Rmult_le_compat; try apply Rabs_pos; [assumption|lra]. }
+    assert (H50 : (bpow2 (-50) < 1)%R) by (change 1%R with (bpow2 0); apply bpow_lt; lia).
+    rewrite !Ztrunc_small; [reflexivity| |].
+    + rewrite Rabs_mult, (Rabs_pos_eq (bpow2 n_frac)) by apply bpow_ge_0.
+      apply Rlt_le_trans with (bpow2 1024 * bpow2 n_frac)%R.
+      * apply Rmult_lt_compat_r; [apply bpow_gt_0|assumption].
+      * rewrite <- bpow_plus. change 1%R with (bpow2 0). apply bpow_le. lia.
+    + apply Rle_lt_trans with (2 := H50).
+      apply abs_round_le_generic; auto with typeclass_instances.
+      apply generic_format_FLT_bpow; [reflexivity|lia].
+  - destruct (py_pow2_spec n_frac) as (s' & Hs' & Hrs & _); [lia|].
+    rewrite Hs in Hs'. injection Hs' as <-.
+    rewrite Hrs, Rmult_comm. apply trunc_round_scaled. apply (generic_format_B2R 53 1024).
 Qed.
 
 Lemma fp_bounds_ok :
@@ -109,18 +164,15 @@ Qed.
 (* ------------------------------------------------------------------ float_to_fp is the exact specification *)
 Lemma float_to_fp_exact :
   forall signed n_bits n_frac (x : b64),
-    1 <= n_bits -> -1074 <= n_frac <= 1023 -> in_domain n_frac x ->
+    1 <= n_bits -> in_domain n_frac x ->
     float_to_fp signed n_bits n_frac x = Ok (fp_spec signed n_bits n_frac (B2R x)).
 Proof.
-  intros signed n_bits n_frac x Hn Hf (Hx & s & Hs & Hfin).
-  destruct (py_pow2_spec n_frac Hf) as (s' & Hs' & Hrs & _).
-  rewrite Hs in Hs'. injection Hs' as <-.
+  intros signed n_bits n_frac x Hn (Hx & s & Hs & Hfin).
+  destruct (b64_mult_finite_inv s x Hfin) as (Hlt & _ & _).
+  destruct (b64_mult_spec s x Hlt) as (Hp & _).
   unfold float_to_fp. rewrite fp_bounds_ok by assumption. simpl bind. rewrite Hs. simpl bind.
   rewrite py_int_finite by assumption. simpl bind. unfold fp_spec. simpl fst. simpl snd.
-  f_equal. f_equal.
-  apply mult_pow2_trunc; try assumption.
-  - rewrite Hrs. apply Rmult_comm.
-  - apply (generic_format_B2R 53 1024).
+  f_equal. f_equal. rewrite Hp. apply scaled_trunc_all; assumption.
 Qed.
 
 (* ------------------------------------------------------------------ consequences, on the specification *)
@@ -292,7 +344,7 @@ Proof.
   unfold roundtrip. rewrite Hy. simpl bind.
   assert (Hback : (B2R y * bpow2 n_frac = IZR v)%R).
   { rewrite Hry, Rmult_assoc, <- bpow_plus. replace (- n_frac + n_frac) with 0 by lia. simpl. ring. }
-  rewrite float_to_fp_exact; [| lia | lia |].
+  rewrite float_to_fp_exact; [| lia |].
   - unfold fp_spec. rewrite Hback, Ztrunc_IZR. f_equal. apply clamp_id. exact Hrep.
   - split; [assumption|].
     destruct (py_pow2_spec n_frac) as (s & Hs & Hrs & Hsf); [lia|].
@@ -421,29 +473,6 @@ Proof.
   simpl in *. lra.
 Qed.
 
-Lemma b64_mult_finite_inv :
-  forall a b : b64, is_finite (b64_mult a b) = true ->
-    (Rabs (rnd64 (B2R a * B2R b)) < bpow2 1024)%R /\ is_finite a = true /\ is_finite b = true.
-Proof.
-  intros a b Hfin. unfold b64_mult in Hfin.
-  generalize (Bmult_correct 53 1024 prec64_gt_0 prec64_lt_emax mode_NE a b).
-  change (SpecFloat.fexp 53 1024) with fexp64. change (round_mode mode_NE) with ZnearestE.
-  destruct (Rlt_bool_spec (Rabs (rnd64 (B2R a * B2R b))) (bpow2 1024)) as [Hlt|Hge].
-  - intros (_ & H2 & _). rewrite Hfin in H2. symmetry in H2. apply andb_true_iff in H2. tauto.
-  - intros H. apply is_finite_not_overflow in H. congruence.
-Qed.
-
-Lemma b64_mult_spec :
-  forall a b : b64, (Rabs (rnd64 (B2R a * B2R b)) < bpow2 1024)%R ->
-    B2R (b64_mult a b) = rnd64 (B2R a * B2R b) /\
-    is_finite (b64_mult a b) = is_finite a && is_finite b.
-Proof.
-  intros a b Hlt. unfold b64_mult.
-  generalize (Bmult_correct 53 1024 prec64_gt_0 prec64_lt_emax mode_NE a b).
-  change (SpecFloat.fexp 53 1024) with fexp64. change (round_mode mode_NE) with ZnearestE.
-  rewrite Rlt_bool_true by assumption. intros (H1 & H2 & _). split; assumption.
-Qed.
-
 Lemma Ztrunc_Rmax : forall a b : R, Ztrunc (Rmax a b) = Z.max (Ztrunc a) (Ztrunc b).
 Proof.
   intros a b. destruct (Rle_or_lt a b) as [H|H].
@@ -552,16 +581,15 @@ Qed.
 
 Lemma numpy_agrees_generic :
   forall signed n_bits n_frac (x : b64),
-    1 <= n_bits <= 1023 -> -1074 <= n_frac <= 1023 -> in_domain n_frac x ->
+    1 <= n_bits <= 1023 -> in_domain n_frac x ->
     bind (np_scaled_clipped n_frac (fmt_min signed n_bits) (fmt_max signed n_bits) x) (fun cs =>
       if is_nan (fst cs) then Failed 99
       else Ok (if snd cs then fmt_max signed n_bits else np_cast signed n_bits (fst cs)))
     = Ok (fp_spec signed n_bits n_frac (B2R x)).
 Proof.
-  intros signed n_bits n_frac x Hn Hf (Hx & s & Hs & Hfin).
-  destruct (py_pow2_spec n_frac Hf) as (s' & Hs' & Hrs & Hsf).
-  rewrite Hs in Hs'. injection Hs' as <-.
-  destruct (b64_mult_finite_inv s x Hfin) as (Hlt & _ & _).
+  intros signed n_bits n_frac x Hn (Hx & s & Hs & Hfin).
+  destruct (b64_mult_finite_inv s x Hfin) as (Hlt & Hsf & _).
+  pose proof (scaled_trunc_all n_frac x s Hs Hfin) as Htr.
   rewrite Rmult_comm in Hlt.
   destruct (b64_mult_spec x s Hlt) as (Hy & Hyf). rewrite Hx, Hsf in Hyf. simpl in Hyf.
   destruct (fmt_bounds_floats signed n_bits Hn) as ((lo & Hlo & Hlof & HL) & (hi & Hhi & Hhif & HH & HMH)).
@@ -569,16 +597,16 @@ Proof.
   simpl fst. simpl snd.
   destruct (np_elem_generic signed n_bits (b64_mult x s) lo hi ltac:(lia) Hyf Hlof Hhif HL HH HMH) as (Hnan & Heq).
   rewrite Hnan, Heq. f_equal. unfold fp_spec. f_equal.
-  rewrite Hy, Hrs. apply trunc_round_scaled. apply (generic_format_B2R 53 1024).
+  rewrite Hy, (Rmult_comm (B2R x)). exact Htr.
 Qed.
 
 Lemma numpy_agrees :
   forall signed n_bits n_frac (x : b64),
     n_bits = 8 \/ n_bits = 16 \/ n_bits = 32 \/ n_bits = 64 ->
-    -1074 <= n_frac <= 1023 -> in_domain n_frac x ->
+    in_domain n_frac x ->
     np_float_to_fix signed n_bits n_frac x = float_to_fp signed n_bits n_frac x.
 Proof.
-  intros signed n_bits n_frac x Hn Hf Hd.
+  intros signed n_bits n_frac x Hn Hd.
   assert (Hn' : 1 <= n_bits <= 1023) by lia.
   rewrite float_to_fp_exact by (assumption || lia).
   unfold np_float_to_fix. rewrite np_init_ok by assumption. simpl bind. simpl fst. simpl snd.
@@ -610,46 +638,46 @@ Proof. split; [ unfold representable; vm_compute; split; discriminate | vm_compu
 (* ------------------------------------------------------------------ the property's sentences for float_to_fp *)
 Lemma fp_in_range :
   forall signed n_bits n_frac (x : b64) v,
-    1 <= n_bits -> -1074 <= n_frac <= 1023 -> in_domain n_frac x ->
+    1 <= n_bits -> in_domain n_frac x ->
     float_to_fp signed n_bits n_frac x = Ok v ->
     fmt_min signed n_bits <= v <= fmt_max signed n_bits.
 Proof.
-  intros signed n_bits n_frac x v Hn Hf Hd H.
+  intros signed n_bits n_frac x v Hn Hd H.
   rewrite float_to_fp_exact in H by assumption. injection H as <-.
   apply fp_spec_in_range; assumption.
 Qed.
 
 Lemma fp_monotone :
   forall signed n_bits n_frac (x y : b64) vx vy,
-    1 <= n_bits -> -1074 <= n_frac <= 1023 -> in_domain n_frac x -> in_domain n_frac y ->
+    1 <= n_bits -> in_domain n_frac x -> in_domain n_frac y ->
     (B2R x <= B2R y)%R ->
     float_to_fp signed n_bits n_frac x = Ok vx -> float_to_fp signed n_bits n_frac y = Ok vy ->
     vx <= vy.
 Proof.
-  intros signed n_bits n_frac x y vx vy Hn Hf Hdx Hdy Hle Hx Hy.
+  intros signed n_bits n_frac x y vx vy Hn Hdx Hdy Hle Hx Hy.
   rewrite float_to_fp_exact in Hx, Hy by assumption. injection Hx as <-. injection Hy as <-.
   apply fp_spec_monotone; assumption.
 Qed.
 
 Lemma fp_truncates :
   forall signed n_bits n_frac (x : b64),
-    1 <= n_bits -> -1074 <= n_frac <= 1023 -> in_domain n_frac x ->
+    1 <= n_bits -> in_domain n_frac x ->
     fmt_min signed n_bits <= Ztrunc (B2R x * bpow2 n_frac) <= fmt_max signed n_bits ->
     float_to_fp signed n_bits n_frac x = Ok (Ztrunc (B2R x * bpow2 n_frac)).
 Proof.
-  intros signed n_bits n_frac x Hn Hf Hd H.
+  intros signed n_bits n_frac x Hn Hd H.
   rewrite float_to_fp_exact by assumption. f_equal. apply fp_spec_representable; assumption.
 Qed.
 
 Lemma fp_saturates :
   forall signed n_bits n_frac (x : b64),
-    1 <= n_bits -> -1074 <= n_frac <= 1023 -> in_domain n_frac x ->
+    1 <= n_bits -> in_domain n_frac x ->
     ((IZR (fmt_max signed n_bits) <= B2R x * bpow2 n_frac)%R ->
        float_to_fp signed n_bits n_frac x = Ok (fmt_max signed n_bits)) /\
     ((B2R x * bpow2 n_frac <= IZR (fmt_min signed n_bits))%R ->
        float_to_fp signed n_bits n_frac x = Ok (fmt_min signed n_bits)).
 Proof.
-  intros signed n_bits n_frac x Hn Hf Hd.
+  intros signed n_bits n_frac x Hn Hd.
   rewrite float_to_fp_exact by assumption. split; intros H; f_equal.
   - apply fp_spec_saturates_high; assumption.
   - apply fp_spec_saturates_low; assumption.
@@ -657,12 +685,12 @@ Qed.
 
 Lemma fp_within_one_lsb :
   forall signed n_bits n_frac (x : b64),
-    1 <= n_bits -> -1074 <= n_frac <= 1023 -> in_domain n_frac x ->
+    1 <= n_bits -> in_domain n_frac x ->
     (IZR (fmt_min signed n_bits) <= B2R x * bpow2 n_frac <= IZR (fmt_max signed n_bits))%R ->
     exists v, float_to_fp signed n_bits n_frac x = Ok v /\
               (Rabs (IZR v * bpow2 (- n_frac) - B2R x) < bpow2 (- n_frac))%R.
 Proof.
-  intros signed n_bits n_frac x Hn Hf Hd H.
+  intros signed n_bits n_frac x Hn Hd H.
   eexists; split; [apply float_to_fp_exact; assumption|].
   apply fp_spec_within_one_lsb; assumption.
 Qed.
@@ -702,12 +730,367 @@ Proof.
   assert (2 ^ n_bits <= 2 ^ 53) by (apply Z.pow_le_mono_r; lia). lia.
 Qed.
 
+Lemma in_domain_by_eval :
+  forall n_frac (x : b64) scale,
+    is_finite x = true -> py_pow2 n_frac = Ok scale -> is_finite (b64_mult scale x) = true ->
+    in_domain n_frac x.
+Proof. intros n_frac x scale H1 H2 H3. split; [assumption|]. exists scale. split; assumption. Qed.
+
 Lemma domain_inhabited :
   in_domain 4 (b64_of_bits 0x3fe0000000000000) /\
   float_to_fp true 8 4 (b64_of_bits 0x3fe0000000000000) = Ok 8 /\
   in_domain 0 x_1e30 /\ in_domain (-4) (b64_of_bits 1) /\
   float_to_fp true 8 (-4) (b64_of_bits 1) = Ok 0.
 Proof.
-  unfold in_domain. repeat split; try (vm_compute; reflexivity);
-    (eexists; split; [reflexivity|vm_compute; reflexivity]).
+  split; [|split; [|split; [|split]]].
+  - eapply in_domain_by_eval; [vm_compute; reflexivity | reflexivity | vm_compute; reflexivity].
+  - vm_compute; reflexivity.
+  - eapply in_domain_by_eval; [vm_compute; reflexivity | reflexivity | vm_compute; reflexivity].
+  - eapply in_domain_by_eval; [vm_compute; reflexivity | reflexivity | vm_compute; reflexivity].
+  - vm_compute; reflexivity.
 Qed.
+
+(* ------------------------------------------------------------------ dividing by 2^k is multiplying by 2^-k *)
+Lemma py_pow2_sign :
+  forall k, -1074 <= k <= 1023 ->
+  exists s, py_pow2 k = Ok s /\ B2R s = bpow2 k /\ is_finite s = true /\ Bsign s = false.
+Proof.
+  intros k Hk. unfold py_pow2.
+  destruct (1024 <=? k) eqn:E; [apply Z.leb_le in E; lia|].
+  eexists; split; [reflexivity|].
+  generalize (Bldexp_correct 53 1024 prec64_gt_0 prec64_lt_emax mode_NE b64_one k).
+  unfold b64_one. rewrite Bone_correct, Rmult_1_l.
+  change (SpecFloat.fexp 53 1024) with fexp64. change (round_mode mode_NE) with ZnearestE.
+  rewrite round_generic; auto with typeclass_instances.
+  2:{ apply generic_format_FLT_bpow; [reflexivity|lia]. }
+  rewrite Rlt_bool_true by (apply bpow_lt_1024; lia).
+  intros (H1 & H2 & H3). split; [exact H1|]. rewrite H2, H3. split; [apply is_finite_Bone|apply Bsign_Bone].
+Qed.
+
+Lemma div_pow2_is_mult :
+  forall (a d s : b64) (k : Z),
+    is_finite a = true ->
+    B2R d = bpow2 k -> is_finite d = true -> Bsign d = false ->
+    B2R s = bpow2 (- k) -> is_finite s = true -> Bsign s = false ->
+    b64_div a d = b64_mult a s.
+Proof.
+  intros a d s k Ha Hd Hdf Hds Hs Hsf Hss. unfold b64_div, b64_mult.
+  assert (Hnz : B2R d <> 0%R) by (rewrite Hd; apply Rgt_not_eq, bpow_gt_0).
+  generalize (Bdiv_correct 53 1024 prec64_gt_0 prec64_lt_emax mode_NE a d Hnz).
+  generalize (Bmult_correct 53 1024 prec64_gt_0 prec64_lt_emax mode_NE a s).
+  replace (B2R a / B2R d)%R with (B2R a * B2R s)%R
+    by (rewrite Hd, Hs, bpow_opp; reflexivity).
+  rewrite Hds, Hss, Ha, Hsf.
+  destruct (Rlt_bool _ _).
+  - intros (M1 & M2 & M3) (D1 & D2 & D3).
+    apply B2R_Bsign_inj.
+    + assumption.
+    + assumption.
+    + congruence.
+    + rewrite D3, M3; [reflexivity| |]; apply finite_not_nan; assumption.
+  - intros M D. apply B2SF_inj. congruence.
+Qed.
+
+Lemma py_float_of_int_finite : forall v fv, py_float_of_int v = Ok fv -> is_finite fv = true.
+Proof.
+  unfold py_float_of_int. intros v fv H.
+  destruct (is_finite (binary_normalize 53 1024 prec64_gt_0 prec64_lt_emax mode_NE v 0 false)) eqn:E;
+    [|discriminate].
+  injection H as <-. exact E.
+Qed.
+
+(* NumpyFixToFloatConverter (divide by 2.0**n_frac) = fp_to_float (multiply by 2.0**-n_frac), bit for bit *)
+Lemma np_back_agrees :
+  forall n_frac v, -1023 <= n_frac <= 1023 -> np_fix_to_float n_frac v = fp_to_float n_frac v.
+Proof.
+  intros n_frac v Hf. unfold np_fix_to_float, fp_to_float.
+  destruct (py_pow2_sign n_frac) as (d & Hd & Hrd & Hdf & Hds); [lia|].
+  destruct (py_pow2_sign (- n_frac)) as (s & Hs & Hrs & Hsf & Hss); [lia|].
+  rewrite Hd, Hs. simpl bind.
+  destruct (py_float_of_int v) as [fv| | |] eqn:Hv; try reflexivity.
+  simpl bind. f_equal.
+  apply div_pow2_is_mult with (k := n_frac); try assumption.
+  apply py_float_of_int_finite with v; assumption.
+Qed.
+
+(* ------------------------------------------------------------------ the deprecated pair *)
+
+Lemma fmt_min_int : forall signed n_bits, fmt_min signed n_bits = if signed then - 2 ^ (n_bits - sbit signed) else 0.
+Proof. intros [|] n; reflexivity. Qed.
+
+Lemma fmt_max_int : forall signed n_bits, fmt_max signed n_bits = 2 ^ (n_bits - sbit signed) - 1.
+Proof. intros [|] n; unfold fmt_max, sbit; [reflexivity|]. replace (n - 0) with n by lia. reflexivity. Qed.
+
+Lemma py_float_of_pow2 :
+  forall k, 0 <= k <= 1023 ->
+  exists d, py_float_of_int (2 ^ k) = Ok d /\ B2R d = bpow2 k /\ is_finite d = true /\ Bsign d = false.
+Proof.
+  intros k Hk. unfold py_float_of_int.
+  generalize (binary_normalize_correct 53 1024 prec64_gt_0 prec64_lt_emax mode_NE (2 ^ k) 0 false).
+  cbv zeta. change (SpecFloat.fexp 53 1024) with fexp64. change (round_mode mode_NE) with ZnearestE.
+  replace (F2R (Float radix2 (2 ^ k) 0)) with (bpow2 k)
+    by (unfold F2R; simpl; rewrite IZR_pow2 by lia; ring).
+  rewrite round_generic; auto with typeclass_instances.
+  2:{ apply generic_format_FLT_bpow; [reflexivity|lia]. }
+  rewrite Rlt_bool_true by (apply bpow_lt_1024; lia).
+  rewrite Rcompare_Gt by apply bpow_gt_0.
+  intros (H1 & H2 & H3). rewrite H2. eexists; split; [reflexivity|]. repeat split; assumption.
+Qed.
+
+(* validate_fp_params on a format it accepts: the float upper bound, scaled back, is the rounded
+   integer bound -- never below it, at most the next power of two *)
+Lemma validate_ok :
+  forall signed n_bits n_frac, valid_format signed n_bits n_frac ->
+  exists maxv,
+    validate_fp_params signed n_bits n_frac
+      = Ok ((if signed then - 2 ^ (n_bits - sbit signed - n_frac) else 0), maxv) /\
+    is_finite maxv = true /\
+    (IZR (fmt_max signed n_bits) <= B2R maxv * bpow2 n_frac <= bpow2 (n_bits - sbit signed))%R.
+Proof.
+  intros signed n_bits n_frac ((Hn1 & Hn2) & (Hf1 & Hf2)).
+  unfold validate_fp_params.
+  destruct (n_bits <? 1) eqn:E1; [apply Z.ltb_lt in E1; lia|].
+  fold (sbit signed).
+  destruct ((n_bits <? sbit signed + n_frac) || (n_frac <? 0)) eqn:E2.
+  { apply orb_true_iff in E2. destruct E2 as [E|E]; apply Z.ltb_lt in E; lia. }
+  set (n_int := n_bits - sbit signed) in *.
+  assert (Hni : 0 <= n_int <= 1023) by (unfold n_int, sbit; destruct signed; lia).
+  destruct (py_float_of_pow2 n_frac) as (d & Hd & Hrd & Hdf & Hds); [lia|].
+  assert (Hpos : 0 < 2 ^ n_int) by (apply Z.pow_pos_nonneg; lia).
+  destruct (py_float_of_int_round (2 ^ n_int - 1) n_int) as (N & HN & HrN & HNf); [lia|lia|].
+  rewrite Hd. simpl bind. rewrite HN. simpl bind.
+  eexists; split; [reflexivity|].
+  pose proof (max_le_round n_int Hni) as Hle. rewrite <- HrN in Hle.
+  assert (Hub : (B2R N <= bpow2 n_int)%R).
+  { rewrite HrN. apply round_le_generic; auto with typeclass_instances.
+    - apply generic_format_FLT_bpow; [reflexivity|lia].
+    - rewrite minus_IZR, IZR_pow2 by lia. lra. }
+  assert (HN0 : (0 <= B2R N)%R).
+  { apply Rle_trans with (2 := Hle). apply IZR_le. lia. }
+  (* the quotient is exact *)
+  assert (Hfmt : fmt64 (B2R N * bpow2 (- n_frac))).
+  { destruct (Z.eq_dec n_int 0) as [H0|H0].
+    - assert (n_frac = 0) by lia. subst n_frac. simpl. rewrite Rmult_1_r. apply (generic_format_B2R 53 1024).
+    - apply mult_bpow_exact_FLT; [apply (generic_format_B2R 53 1024)|].
+      assert (n_int <= mag radix2 (B2R N)); [|lia].
+      apply mag_ge_bpow. rewrite Rabs_pos_eq by assumption.
+      apply Rle_trans with (2 := Hle). rewrite minus_IZR, IZR_pow2 by lia.
+      replace n_int with (n_int - 1 + 1) at 2 by lia. rewrite bpow_plus.
+      assert (1 <= bpow2 (n_int - 1))%R; [|simpl; lra].
+      change 1%R with (bpow2 0). apply bpow_le. lia. }
+  assert (Hnz : B2R d <> 0%R) by (rewrite Hrd; apply Rgt_not_eq, bpow_gt_0).
+  generalize (Bdiv_correct 53 1024 prec64_gt_0 prec64_lt_emax mode_NE N d Hnz).
+  change (SpecFloat.fexp 53 1024) with fexp64. change (round_mode mode_NE) with ZnearestE.
+  replace (B2R N / B2R d)%R with (B2R N * bpow2 (- n_frac))%R by (rewrite Hrd, bpow_opp; reflexivity).
+  rewrite round_generic by (auto with typeclass_instances).
+  rewrite Rlt_bool_true.
+  - intros (D1 & D2 & _). unfold b64_div. rewrite D2, D1. split; [assumption|].
+    rewrite Rmult_assoc, <- bpow_plus. replace (- n_frac + n_frac) with 0 by lia. simpl.
+    rewrite Rmult_1_r. rewrite fmt_max_int. fold n_int. split; assumption.
+  - rewrite Rabs_mult, (Rabs_pos_eq (B2R N)), (Rabs_pos_eq (bpow2 (- n_frac))) by (assumption || apply bpow_ge_0).
+    apply Rle_lt_trans with (bpow2 n_int * bpow2 (- n_frac))%R.
+    + apply Rmult_le_compat_r; [apply bpow_ge_0|assumption].
+    + rewrite <- bpow_plus. apply bpow_lt. lia.
+Qed.
+
+Lemma testbit_top :
+  forall n w, 1 <= n -> 0 <= w < 2 ^ n -> Z.testbit w (n - 1) = (2 ^ (n - 1) <=? w).
+Proof.
+  intros n w Hn Hw.
+  assert (Hp : 0 < 2 ^ (n - 1)) by (apply Z.pow_pos_nonneg; lia).
+  assert (H2 : 2 ^ n = 2 * 2 ^ (n - 1)).
+  { replace n with (n - 1 + 1) at 1 by lia. rewrite Z.pow_add_r by lia. lia. }
+  destruct (2 ^ (n - 1) <=? w) eqn:E.
+  - apply Z.leb_le in E. apply Z.testbit_true; [lia|].
+    replace (w / 2 ^ (n - 1)) with 1; [reflexivity|].
+    apply Z.div_unique with (w - 2 ^ (n - 1)); lia.
+  - apply Z.leb_gt in E. apply Z.testbit_false; [lia|].
+    rewrite Z.div_small by lia. reflexivity.
+Qed.
+
+(* fix_to_float reads the word as a two's-complement number and converts like fp_to_float, bit for bit *)
+Lemma unfix_agrees :
+  forall signed n_bits n_frac w,
+    valid_format signed n_bits n_frac -> 0 <= w < 2 ^ n_bits ->
+    fix_to_float signed n_bits n_frac w = fp_to_float n_frac (word_value signed n_bits w).
+Proof.
+  intros signed n_bits n_frac w Hv Hw.
+  destruct (validate_ok signed n_bits n_frac Hv) as (maxv & Hval & _).
+  destruct Hv as ((Hn1 & Hn2) & (Hf1 & Hf2)).
+  unfold fix_to_float. rewrite Hval. simpl bind.
+  rewrite testbit_top by lia. fold (word_value signed n_bits w).
+  assert (Hfr : n_frac <= 1023) by (unfold sbit in Hf2; destruct signed; lia).
+  rewrite <- np_back_agrees by lia. unfold np_fix_to_float.
+  destruct (py_pow2_sign n_frac) as (d & Hd & _); [lia|]. rewrite Hd. simpl bind.
+  destruct (py_float_of_int (word_value signed n_bits w)); reflexivity.
+Qed.
+
+Lemma Rmin_scale : forall a b c : R, (0 <= c)%R -> (Rmin a b * c = Rmin (a * c) (b * c))%R.
+Proof.
+  intros a b c Hc. unfold Rmin.
+  destruct (Rle_dec a b) as [H|H]; destruct (Rle_dec (a * c) (b * c)) as [H'|H']; try reflexivity.
+  - exfalso. apply H'. apply Rmult_le_compat_r; assumption.
+  - apply Rle_antisym; [|assumption]. apply Rmult_le_compat_r; lra.
+Qed.
+
+Lemma Rmax_scale : forall a b c : R, (0 <= c)%R -> (Rmax a b * c = Rmax (a * c) (b * c))%R.
+Proof.
+  intros a b c Hc. unfold Rmax.
+  destruct (Rle_dec a b) as [H|H]; destruct (Rle_dec (a * c) (b * c)) as [H'|H']; try reflexivity.
+  - exfalso. apply H'. apply Rmult_le_compat_r; assumption.
+  - apply Rle_antisym; [assumption|]. apply Rmult_le_compat_r; lra.
+Qed.
+
+Lemma land_mask : forall n a, 0 <= n -> Z.land a (2 ^ n - 1) = a mod 2 ^ n.
+Proof.
+  intros n a Hn. rewrite <- Z.land_ones by assumption. f_equal. rewrite Z.ones_equiv. lia.
+Qed.
+
+(* the clipped, scaled and truncated value computed by float_to_fix (both versions) *)
+Lemma fix_clipped_scaled_spec :
+  forall signed n_bits n_frac (x : b64),
+    valid_format signed n_bits n_frac -> is_finite x = true ->
+    exists (value : b64) (tr : Z),
+      fix_clipped_scaled signed n_bits n_frac x
+        = Ok (value, Z.min (Z.max (Ztrunc (B2R x * bpow2 n_frac)) (fmt_min signed n_bits)) tr) /\
+      is_finite value = true /\
+      fmt_max signed n_bits <= tr /\
+      ((B2R value < 0)%R -> (B2R x * bpow2 n_frac < 0)%R /\ signed = true) /\
+      ((0 <= B2R value)%R -> (0 <= Rmax (B2R x * bpow2 n_frac) (IZR (fmt_min signed n_bits)))%R).
+Proof.
+  intros signed n_bits n_frac x Hv Hx.
+  destruct (validate_ok signed n_bits n_frac Hv) as (maxv & Hval & Hmf & Hm1 & Hm2).
+  destruct Hv as ((Hn1 & Hn2) & (Hf1 & Hf2)).
+  set (n_int := n_bits - sbit signed) in *.
+  assert (Hni : 0 <= n_int <= 1023) by (unfold n_int, sbit; destruct signed; lia).
+  assert (Hpos : 0 < 2 ^ n_int) by (apply Z.pow_pos_nonneg; lia).
+  assert (Hposd : 0 < 2 ^ (n_int - n_frac)) by (apply Z.pow_pos_nonneg; lia).
+  set (minv := if signed then - 2 ^ (n_int - n_frac) else 0) in *.
+  (* the lower bound as a float: exact, and scaled back it is the format's minimum *)
+  destruct (py_float_of_int_exact minv) as (lo & Hlo & Hrlo & Hlof).
+  { unfold minv. destruct signed; [apply fmt64_neg_pow2; lia|apply generic_format_0]. }
+  { apply Rlt_le_trans with (bpow2 (n_int - n_frac + 1)); [|apply bpow_le; lia].
+    apply IZR_lt_bpow; [lia|]. rewrite Z.pow_add_r by lia. unfold minv. destruct signed; lia. }
+  assert (HLO : (B2R lo * bpow2 n_frac = IZR (fmt_min signed n_bits))%R).
+  { rewrite Hrlo, fmt_min_int. fold n_int. unfold minv. destruct signed; [|apply Rmult_0_l].
+    rewrite !opp_IZR, !IZR_pow2 by lia. rewrite Ropp_mult_distr_l_reverse, <- bpow_plus.
+    replace (n_int - n_frac + n_frac) with n_int by lia. reflexivity. }
+  destruct (py_float_of_pow2 n_frac) as (sc & Hsc & Hrsc & Hscf & _); [lia|].
+  destruct (np_clip_spec x lo maxv Hx Hlof Hmf) as (Hvf & HV).
+  set (value := np_clip x lo maxv) in *.
+  set (Y := (B2R x * bpow2 n_frac)%R).
+  set (R := (B2R maxv * bpow2 n_frac)%R) in *.
+  (* the scaled clipped value *)
+  assert (HVS : (B2R value * bpow2 n_frac = Rmin (Rmax Y (IZR (fmt_min signed n_bits))) R)%R).
+  { rewrite HV, Rmin_scale, Rmax_scale by apply bpow_ge_0. rewrite HLO. reflexivity. }
+  assert (Hmm : (IZR (fmt_min signed n_bits) <= 0)%R).
+  { apply IZR_le. rewrite fmt_min_int. fold n_int. destruct signed; lia. }
+  assert (HM0 : (0 <= IZR (fmt_max signed n_bits))%R).
+  { apply IZR_le. rewrite fmt_max_int. fold n_int. lia. }
+  assert (Hminb : (- bpow2 n_int <= IZR (fmt_min signed n_bits))%R).
+  { rewrite fmt_min_int. fold n_int. destruct signed.
+    - rewrite opp_IZR, IZR_pow2 by lia. lra.
+    - pose proof (bpow_ge_0 radix2 n_int). lra. }
+  assert (Habs : (Rabs (B2R value * bpow2 n_frac) <= bpow2 n_int)%R).
+  { rewrite HVS. apply Rabs_le. unfold Rmin, Rmax.
+    destruct (Rle_dec Y (IZR (fmt_min signed n_bits))); destruct (Rle_dec _ R); lra. }
+  destruct (b64_mult_exact value sc) as (Hp & Hpf).
+  { rewrite Hrsc. apply mult_bpow_pos_exact_FLT; [apply (generic_format_B2R 53 1024)|lia]. }
+  { rewrite Hrsc. apply Rle_lt_trans with (1 := Habs). apply bpow_lt. lia. }
+  rewrite Hvf, Hscf in Hpf. simpl in Hpf.
+  unfold fix_clipped_scaled. rewrite Hval. simpl bind. simpl fst. simpl snd.
+  fold minv. rewrite Hlo. simpl bind. fold value. rewrite Hsc. simpl bind.
+  rewrite py_int_finite by assumption. simpl bind.
+  rewrite Hp, Hrsc, HVS, Ztrunc_Rmin, Ztrunc_Rmax, Ztrunc_IZR.
+  exists value, (Ztrunc R). split; [reflexivity|]. split; [assumption|].
+  split; [|split].
+  - apply Ztrunc_le in Hm1. rewrite Ztrunc_IZR in Hm1. exact Hm1.
+  - intros Hneg.
+    assert (Hs : (B2R value * bpow2 n_frac < 0)%R).
+    { pose proof (bpow_gt_0 radix2 n_frac). nra. }
+    rewrite HVS in Hs. unfold Rmin, Rmax in Hs.
+    destruct (Rle_dec Y (IZR (fmt_min signed n_bits))); destruct (Rle_dec _ R); try lra.
+    + split; [lra|]. destruct signed; [reflexivity|]. rewrite fmt_min_int in Hs. lra.
+    + split; [lra|]. destruct signed; [reflexivity|]. rewrite fmt_min_int in *. lra.
+  - intros Hnn.
+    assert (Hs : (0 <= B2R value * bpow2 n_frac)%R).
+    { apply Rmult_le_pos; [assumption|apply bpow_ge_0]. }
+    rewrite HVS in Hs. unfold Rmin in Hs.
+    destruct (Rle_dec _ R); [assumption|]. lra.
+Qed.
+
+(* the repaired float_to_fix returns the two's-complement word of the exact specification *)
+Lemma fix_exact :
+  forall signed n_bits n_frac (x : b64),
+    valid_format signed n_bits n_frac -> is_finite x = true ->
+    float_to_fix signed n_bits n_frac x = Ok (fp_spec signed n_bits n_frac (B2R x) mod 2 ^ n_bits).
+Proof.
+  intros signed n_bits n_frac x Hv Hx.
+  destruct (fix_clipped_scaled_spec signed n_bits n_frac x Hv Hx) as (value & tr & Hcs & Hvf & Htr & Hneg & Hnn).
+  destruct Hv as ((Hn1 & Hn2) & (Hf1 & Hf2)).
+  unfold float_to_fix. rewrite Hcs. simpl bind. simpl fst. simpl snd.
+  fold (sbit signed). rewrite <- fmt_max_int.
+  unfold fp_spec.
+  set (T := Ztrunc (B2R x * bpow2 n_frac)) in *.
+  set (mn := fmt_min signed n_bits) in *. set (mx := fmt_max signed n_bits) in *.
+  pose proof (fmt_min_lt_max signed n_bits Hn1) as Hmm. fold mn mx in Hmm.
+  assert (Hp : 0 < 2 ^ n_bits) by (apply Z.pow_pos_nonneg; lia).
+  assert (Hp1 : 0 < 2 ^ (n_bits - 1)) by (apply Z.pow_pos_nonneg; lia).
+  assert (H2 : 2 ^ n_bits = 2 * 2 ^ (n_bits - 1)).
+  { replace n_bits with (n_bits - 1 + 1) at 1 by lia. rewrite Z.pow_add_r by lia. lia. }
+  assert (H3 : 2 ^ (n_bits + 1) = 2 * 2 ^ n_bits) by (rewrite Z.pow_add_r by lia; lia).
+  assert (Hmn : - 2 ^ (n_bits - 1) <= mn <= 0 /\ 0 <= mx < 2 ^ n_bits).
+  { unfold mn, mx, fmt_min, fmt_max. destruct signed; lia. }
+  rewrite Bltb_correct by (assumption || reflexivity).
+  change (B2R b64_zero) with 0%R.
+  destruct (Rlt_bool_spec (B2R value) 0) as [Hlt|Hge].
+  - destruct (Hneg Hlt) as (HY & ->).
+    assert (HT : T <= 0).
+    { unfold T. apply Rlt_le, Ztrunc_le in HY. rewrite (Ztrunc_IZR 0) in HY. exact HY. }
+    assert (Hi : Z.min (Z.max T mn) tr = clamp mn mx T) by (unfold clamp; lia).
+    rewrite Hi.
+    assert (Hc : mn <= clamp mn mx T <= 0) by (unfold clamp; lia).
+    assert (Hmn' : mn = - 2 ^ (n_bits - 1)) by reflexivity.
+    destruct ((0 <=? 2 ^ n_bits + clamp mn mx T) && (2 ^ n_bits + clamp mn mx T <? 2 ^ (n_bits + 1))) eqn:E.
+    + f_equal. rewrite land_mask by lia.
+      replace (2 ^ n_bits + clamp mn mx T) with (clamp mn mx T + 1 * 2 ^ n_bits) by lia.
+      apply Z_mod_plus_full.
+    + apply andb_false_iff in E. destruct E as [E|E]; [apply Z.leb_gt in E|apply Z.ltb_ge in E]; lia.
+  - pose proof (Hnn Hge) as H0. apply Ztrunc_le in H0.
+    rewrite (Ztrunc_IZR 0), Ztrunc_Rmax, Ztrunc_IZR in H0. fold T mn in H0.
+    assert (Hi : Z.min (Z.min (Z.max T mn) tr) mx = clamp mn mx T) by (unfold clamp; lia).
+    rewrite Hi.
+    assert (Hc : 0 <= clamp mn mx T <= mx) by (unfold clamp; lia).
+    destruct ((0 <=? clamp mn mx T) && (clamp mn mx T <? 2 ^ (n_bits + 1))) eqn:E.
+    + f_equal. apply land_mask. lia.
+    + apply andb_false_iff in E. destruct E as [E|E]; [apply Z.leb_gt in E|apply Z.ltb_ge in E]; lia.
+Qed.
+
+Lemma fix_agrees_mod_2n :
+  forall signed n_bits n_frac (x : b64),
+    valid_format signed n_bits n_frac -> in_domain n_frac x ->
+    exists v, float_to_fp signed n_bits n_frac x = Ok v /\
+              float_to_fix signed n_bits n_frac x = Ok (v mod 2 ^ n_bits).
+Proof.
+  intros signed n_bits n_frac x Hv Hd.
+  exists (fp_spec signed n_bits n_frac (B2R x)). split.
+  - destruct Hv as ((Hn1 & Hn2) & (Hf1 & Hf2)).
+    apply float_to_fp_exact; assumption.
+  - apply fix_exact; [assumption|apply Hd].
+Qed.
+
+(* the documented ValueError: exactly the formats outside valid_format's second clause *)
+Lemma fix_invalid_format :
+  forall signed n_bits n_frac (x : b64),
+    n_bits < 1 \/ n_frac < 0 \/ n_bits - sbit signed < n_frac ->
+    float_to_fix signed n_bits n_frac x = Failed 0.
+Proof.
+  intros signed n_bits n_frac x H. unfold float_to_fix, fix_clipped_scaled, validate_fp_params.
+  destruct (n_bits <? 1) eqn:E1; [reflexivity|]. apply Z.ltb_ge in E1.
+  fold (sbit signed).
+  destruct ((n_bits <? sbit signed + n_frac) || (n_frac <? 0)) eqn:E2; [reflexivity|].
+  apply orb_false_iff in E2. destruct E2 as [Ea Eb]. apply Z.ltb_ge in Ea. apply Z.ltb_ge in Eb. lia.
+Qed.
+
+Lemma valid_format_inhabited : valid_format true 64 0 /\ valid_format false 64 64 /\ valid_format true 8 4.
+Proof. unfold valid_format, sbit. lia. Qed.
